@@ -629,6 +629,32 @@ def run_hostile(spec, rec):
                     rec.violation("table_shape", {"view": "after-hostile-op", "what": bad[0].split(" ")[0][:20]}, {"op": op, "problems": bad[:3]}, case=case)
                 continue
             compare_table(tr2, rec, case, log, view="after-hostile-op", xf={"op": which, "n_class": "neg" if n < 0 else "zero" if n == 0 else "oversized"})
+    # writes the library must refuse (a position beyond the documented limits of 1 000 000 rows / 1000 columns, or negative):
+    # IndexError, and the table - also the part of it the position would have grown - is what it was
+    for (R, C) in ((3, 3), (5, 2)):
+        for (r, c) in ((R + 4, 1000), (R + 1, 1001), (1_000_000, C + 2), (1_000_001, 0), (R + 2, -1), (-1, C + 3), (0, 5000), (R, 1000), (2_000_000, 2000)):
+            with warnings.catch_warnings():
+                warnings.simplefilter("ignore")
+                doc = Document(num_rows=R, num_cols=C, num_header_rows=0, num_header_cols=0)
+            t = doc.sheets[0].tables[0]
+            g = Grid(R, C)
+            for rr in range(R):
+                for cc in range(C):
+                    t.write(rr, cc, rr * 10 + cc)
+                    g.write(rr, cc, rr * 10 + cc)
+            op = {"op": "write", "r": r, "c": c, "v": V.enc("refused")}
+            case = {"part": "hostile-write", "shape": [R, C], "op": op}
+            log = EventLog()
+            r_, _ = log.call(op, lambda: t.write(r, c, "refused"))
+            rec.count("hostile_ops")
+            rec.count("refused_writes")
+            rec.case(("hostile-write", R, C, r, c))
+            if r_["outcome"] != "exc":
+                rec.violation("hostile_write_accepted", {"axis": "col" if c >= 1000 or c < 0 else "row"}, {"op": op, "shape_after": [t.num_rows, t.num_cols]}, case=case)
+                continue
+            if r_["exc_type"] != "IndexError":
+                rec.violation("hostile_wrong_exception", {"op": "write", "exc": r_["exc_type"], "n_class": "beyond-limit"}, {"op": op, "msg": r_["exc_msg"]}, case=case)
+            compare_table(TableRef(0, 0, 0, t, g), rec, case, log, view="after-refused-op", xf={"op": "write", "n_class": "beyond-limit"})
     rec.sample({"hostile": hostile[:4]})
 
 
